@@ -239,6 +239,10 @@ def judge(p, target, assignment, obs):
     vspec = next(v for g in specs[di]["groups"] for v in g["vectors"] if v["name"] == vname)
     kind = vspec["kind"]
     d = "kind=%s" % (kind if kind != "switch" else "switch-" + vspec.get("rule", "OneOfMany"))
+    if obs.get("sent_bytes", 0) - 22 > 2048:
+        # the serialised write (without the XML declaration) is longer than the server connection's junk-recovery
+        # threshold: known finding KF-1 (first found by C08) applies to it, whatever the element kind
+        d += ",upload-message>2048"
     if obs["exc"] is not None:
         from mc import lib
 
